@@ -70,31 +70,54 @@ def run(chk):
     if ndis == 0:
         return chk.finish("proof", nobl, ndis, axioms, RULE)
     drv = wire.Driver()
-    for label, doc, g in graphs.pool(chk, 400, 8000):
-        payload = gen.graph_payload(g)
+    import demes
+    import copy
+    rng = __import__("random").Random(chk.seed + 12)
+
+    def derived(label, g):
+        """the graph itself, and graphs obtained from it by the library's own operations (the matrices must
+        describe the graph they are asked of, whatever its history)"""
+        yield label, g
         try:
-            ir = ("ok", g.migration_matrices())
+            d = g.asdict()
+            if d["time_units"] == "generations":
+                d = dict(d, time_units="years", generation_time=rng.choice([2, 25, 29.5]))
+            g2 = demes.Graph.fromdict(d)
+            g2.migration_matrices()
+            yield label + "|in_generations", g2.in_generations()
+            b = demes.Builder.fromdict(copy.deepcopy(d))
+            yield label + "|builder|in_generations", b.resolve().in_generations()
+            if len(g.demes) >= 2:
+                a, c = g.demes[0].name, g.demes[-1].name
+                yield label + "|rename-swap", g2.rename_demes({a: c, c: a})
         except Exception as e:
-            ir = ("err", type(e).__name__)
-        mr = drv.call("migmat", payload)
-        chk.case(payload, nontrivial=len(g.migrations) > 0)
-        chk.count("migrations_%d" % min(len(g.migrations), 6))
-        rep = dict(op="migration_matrices", graph=payload, label=label, impl=repr(ir), model=repr(mr))
-        bad = None
-        if ir[0] == "err":
-            bad = ("migmat:raises:" + ir[1], "migration_matrices raised on a valid graph")
-        else:
-            bad = spec_check(g, ir[1][0], ir[1][1])
-        if bad:
-            chk.violation(bad[0], bad[1], rep)
-        same = (ir[0] == mr[0] and (ir[0] == "err" and ir[1] == mr[1]
-                                    or ir[0] == "ok" and wire.deep_eq([ir[1][0], ir[1][1]], mr[1])))
-        if not same:
-            chk.disagreements += 1
-            chk.unproven("migmat:correspondence", "implementation and proved model differ", rep)
-        if ir[0] == "ok":
-            chk.sample(dict(graph=label, demes=len(g.demes), migrations=len(g.migrations),
-                            end_times=[repr(t) for t in ir[1][1]]))
+            chk.count("derived_failed_" + type(e).__name__)
+    for label0, doc, g0 in graphs.pool(chk, 400, 8000):
+      for label, g in derived(label0, g0):
+          payload = gen.graph_payload(g)
+          try:
+              ir = ("ok", g.migration_matrices())
+          except Exception as e:
+              ir = ("err", type(e).__name__)
+          mr = drv.call("migmat", payload)
+          chk.case(payload, nontrivial=len(g.migrations) > 0)
+          chk.count("migrations_%d" % min(len(g.migrations), 6))
+          rep = dict(op="migration_matrices", graph=payload, label=label, impl=repr(ir), model=repr(mr))
+          bad = None
+          if ir[0] == "err":
+              bad = ("migmat:raises:" + ir[1], "migration_matrices raised on a valid graph")
+          else:
+              bad = spec_check(g, ir[1][0], ir[1][1])
+          if bad:
+              chk.violation(bad[0], bad[1], rep)
+          same = (ir[0] == mr[0] and (ir[0] == "err" and ir[1] == mr[1]
+                                      or ir[0] == "ok" and wire.deep_eq([ir[1][0], ir[1][1]], mr[1])))
+          if not same:
+              chk.disagreements += 1
+              chk.unproven("migmat:correspondence", "implementation and proved model differ", rep)
+          if ir[0] == "ok":
+              chk.sample(dict(graph=label, demes=len(g.demes), migrations=len(g.migrations),
+                              end_times=[repr(t) for t in ir[1][1]]))
     drv.close()
     return chk.finish("proof", nobl, ndis, axioms, RULE,
                       explanation="theorems of coq/Props/C12.v re-checked; Model/MigMat.v (extracted) compared with "
